@@ -22,7 +22,8 @@ import (
 // real client code with its ServiceClient replaced by a mock that answers from a real
 // pkg/database.DB — honestly, or after tampering with the response. Oracle = the database itself:
 // whatever a Verified* call returns without error must be what the database holds, and the trusted
-// state the client ends up with must be a state of the database.
+// state the client ends up with must be a state of the database. (VerifiedTxByID returned tampered
+// transactions until /repo commit 89a7093; the tamperings stay in the stream.)
 
 type memState struct{ st map[string]*schema.ImmutableState }
 
